@@ -1688,6 +1688,49 @@ pub fn pad_symbols(c: &mut Cfg, rng: &mut Rng) {
     c.family = format!("{}+pad", c.family);
 }
 
+/// Long right-hand sides and many states: a run of fresh terminals (all distinct, or a cycle of
+/// 1-3 of them) is spliced into one existing rule at a random position or added as a new
+/// alternative (10-24 fields: field-count thresholds in pop code and rule tables), or — rarely —
+/// long runs are added as alternatives until the automaton has well over 100 or 256 states
+/// (index-width thresholds in tables and state numbering). A fresh terminal occurs nowhere else,
+/// so the state in front of it shifts it without a possible conflict and every state inside the
+/// run has a single item: an accepted grammar stays accepted.
+pub fn stretch_rules(c: &mut Cfg, rng: &mut Rng) {
+    if c.rules.is_empty() {
+        return;
+    }
+    let big = rng.chance(1, 5);
+    let runs = if big { rng.range(3, 9) } else { 1 };
+    for k in 0..runs {
+        let len = if big { rng.range(24, 60) } else { rng.range(9, 24) };
+        let cycle = match rng.below(3) {
+            0 => len,
+            _ => rng.range(1, 3),
+        };
+        let fresh: Vec<usize> = (0..cycle).map(|i| c.term(&format!("Run{}x{}", k, i))).collect();
+        let run: Vec<Sym> = (0..len).map(|i| T(fresh[i % cycle])).collect();
+        let ri = rng.below(c.rules.len());
+        if !big && rng.chance(2, 3) {
+            let at = rng.below(c.rules[ri].1.len() + 1);
+            let tail = c.rules[ri].1.split_off(at);
+            c.rules[ri].1.extend(run);
+            c.rules[ri].1.extend(tail);
+        } else {
+            // a new alternative of an existing nonterminal, optionally ending in what the
+            // chosen rule ends in (so the run is followed by ordinary reductions)
+            let lhs = c.rules[ri].0;
+            let mut rhs = run;
+            if rng.chance(1, 2) {
+                if let Some(last) = c.rules[ri].1.last().copied() {
+                    rhs.push(last);
+                }
+            }
+            c.rules.push((lhs, rhs));
+        }
+    }
+    c.family = format!("{}+{}", c.family, if big { "big" } else { "long" });
+}
+
 /// Names that are easy to confuse: digit runs that differ only in leading zeros (`Reg1`,
 /// `Reg01`, `Reg001`), the same letters in different case, names that are prefixes of one
 /// another. Anything that orders, hashes or abbreviates names must still tell them apart.
@@ -1739,6 +1782,7 @@ pub fn workload_grammar(rng: &mut Rng) -> Grammar {
 /// and the uniform draw find different seeded defects (DESIGN section 11).
 pub fn workload_grammar_mix(rng: &mut Rng, random_pct: usize) -> Grammar {
     let mut side = side_stream(rng, 0xb16_5e75);
+    let mut side2 = side_stream(rng, 0x57e7_c4ed);
     let mut cfg = if rng.chance(random_pct, 100) {
         let mut c = fam_random(rng);
         dedup_rules(&mut c);
@@ -1751,6 +1795,9 @@ pub fn workload_grammar_mix(rng: &mut Rng, random_pct: usize) -> Grammar {
     }
     if side.chance(1, 14) && cfg.rules.len() <= 40 {
         pad_symbols(&mut cfg, &mut side);
+    }
+    if side2.chance(1, 12) && cfg.rules.len() <= 60 {
+        stretch_rules(&mut cfg, &mut side2);
     }
     let mut g = decorate(&cfg, rng, DecoOpts::default());
     if side.chance(1, 6) {
